@@ -1277,10 +1277,9 @@ def create_href(href: str, base_href: Optional[str] = None) -> ET.Element:
 def read_href_element(et: ET.Element) -> Optional[str]:
     if et.text is None:
         return None
-    el = urllib.parse.unquote(et.text)
-    parsed_url = urllib.parse.urlsplit(el)
+    parsed_url = urllib.parse.urlsplit(et.text)
     # TODO(jelmer): Check that the hostname matches the local hostname?
-    return parsed_url.path
+    return urllib.parse.unquote(parsed_url.path)
 
 
 class ExpandPropertyReporter(Reporter):
